@@ -38,6 +38,10 @@ DATETIME = dt.datetime(2020, 1, 2, 12, 30, 0)
 
 
 def tok_id(tok):
+    # "raw:<uuid>" (seeded round 5): the id itself, so that ids which differ in a single character
+    # can be placed next to each other; every other token is hashed into a uuid as before
+    if tok.startswith("raw:"):
+        return tok[4:]
     return str(uuid.uuid5(NS, tok))
 
 
@@ -287,8 +291,25 @@ def build_sec(spec, parent, bt, later):
 
 
 def resolve_name(obj, spec):
-    name = spec.get("name")
-    return obj.id if name == "=id" else name
+    return id_name(obj, spec.get("name"))
+
+
+def id_name(obj, name):
+    """"=id" -> the id of the object; the neighbours (seeded round 5) are names that merely look like
+    the id: other case, a blank behind it, its first group, the id of nobody"""
+    if isinstance(name, dict):
+        return arg_shape(name)          # a name that is not text (what a YAML / JSON file can hold)
+    if name == "=id":
+        return obj.id
+    if name == "=ID":
+        return obj.id.upper()
+    if name == "=id ":
+        return obj.id + " "
+    if name == "=id8":
+        return obj.id[:8]
+    if name == "=id~":
+        return obj.id[:-1] + ("0" if obj.id[-1] != "0" else "1")
+    return name
 
 
 def build(case):
@@ -505,7 +526,7 @@ def apply_op(op, root, bt, hist):
             return root
         attr, value = op["attr"], op.get("value")
         if attr == "name":
-            set_name(sec, sec.id if value == "=id" else value)
+            set_name(sec, id_name(sec, value))
         elif attr == "sc":
             sec.sec_cardinality = card_value(value)
         elif attr == "pc":
@@ -564,7 +585,7 @@ def apply_op(op, root, bt, hist):
             return root
         attr, value = op["attr"], op.get("value")
         if attr == "name":
-            set_name(prop, prop.id if value == "=id" else value)
+            set_name(prop, id_name(prop, value))
         elif attr == "dep":
             prop.dependency = value
         elif attr == "dv":
@@ -1831,6 +1852,259 @@ def gen_depshape_case(rng, strs):
     return case
 
 
+# ----------------------------------------------------------------------------- seeded round 5
+# Keys that are DIFFERENT but look alike.  The duplicate rules compare keys: the (name, type) pair of
+# sibling Sections, the name of sibling Properties, the id of every object, the name a dependency
+# spells, the value a dependency asks for, the name against the own id.  Until now all of these came
+# from pools of a few short words in which two keys are either equal or have nothing in common, so
+# every lossy way of comparing them (the pair joined with a separator, concatenated, compared without
+# case / blanks / accents, cut off after n characters, read as a number, turned into text first)
+# gave the same verdicts as the documented comparison.  The pools below place keys next to each other
+# that differ but coincide under such a comparison - together with real duplicates, so that both
+# directions of "if and only if" are exercised on the same siblings.
+K_WORDS = ["a", "b", "c", "ab", "rec", "setup", "hw", "x", "1", "s", "stimulus", "white_noise"]
+K_SEPS = ["/", "/", "/", "/", ",", ":", "|", " ", ".", "#", "-", "_", ";", "\t", "\n", "\x00", "', '", "\\",
+          "//", "=", "&", "%s", "::", ", ", "\u2044", "\x1f", "\u2028", "')", "+", "@"]
+K_TYPES_OK = ["t", "t", "u", "t/sub", "stimulus/white_noise"]
+K_WORD_FAMILIES = [
+    ["name", "Name", "NAME", "nAME"],
+    ["a", "A"],
+    ["a", "a ", " a", "a\t", "a\n", "a\u00a0", "a\u2028", " a "],
+    ["a b", "a  b", "a\tb", "ab", "a_b"],
+    ["\u00e9", "e\u0301", "e", "\u00c9"],                           # NFC / NFD / without the accent
+    ["\ufb01", "fi"], ["\uff41", "a"], ["\u00df", "ss", "SS"],       # compatibility forms, case folding
+    ["K", "\u212a", "k"], ["\u0131", "i", "I", "\u0130"], ["\u03c3", "\u03c2", "\u03a3"],
+    ["a", "\U0001d41a"],                                            # (outside the BMP: oracle only)
+    ["1", "01", "1.0", "+1", "1e0", "\u0661", "1 "],                # equal as numbers
+    ["p1", "p10", "p01", "p1.0", "p"], ["s9", "s10", "s09"],
+    ["a/b", "a//b", "a/b/", "/a/b", "a\\b", "a|b", "a/B"],
+    ["None", "none", "null", "NONE"], ["True", "true", "TRUE"],
+    ["%s", "%s/%s", "%", "%d", "{}", "{0}"],
+    ["a\x00", "a", "a\x00b", "a\x1f"],
+]
+K_VALUES = ["a", "A", "a ", " a", "ab", "1", "01", "1.0", "name", "Name", "a/b", "a,b"]     # ASCII: inside the model
+
+
+def distinct(items):
+    out = []
+    for it in items:
+        if not any(type(it) is type(o) and it == o for o in out):
+            out.append(it)
+    return out
+
+
+def confusable_words(rng):
+    """-> (2..4 of the words of one family, the whole family)"""
+    if rng.random() < 0.2:
+        # one long prefix in common (a key cut off after 8 / 16 / ... characters)
+        n = rng.choice([8, 16, 31, 32, 63, 64, 100, 255, 256])
+        base = ("abcdefghij" * 26)[:n]
+        fam = [base, base + "x", base + "y", base[:-1], base + " "]
+    else:
+        fam = list(rng.choice(K_WORD_FAMILIES))
+    pick = list(fam)
+    rng.shuffle(pick)
+    return pick[:rng.choice([2, 2, 3, 4])], fam
+
+
+def confusable_pairs(rng):
+    """2..4 (name, type) pairs, pairwise different, that some lossy comparison would identify"""
+    for _ in range(20):
+        a, b, c, d = (rng.choice(K_WORDS) for _ in range(4))
+        r = rng.random()
+        if r < 0.40:
+            # the separator moves from one component to the other: 'a/b' [c]  next to  'a' [b/c]
+            sep = rng.choice(K_SEPS)
+            q = rng.random()
+            if q < 0.55:
+                out = [(a + sep + b, c), (a, b + sep + c)]
+            elif q < 0.80:
+                out = [(a + sep + b + sep + c, d), (a + sep + b, c + sep + d), (a, b + sep + c + sep + d)]
+            else:
+                out = [(a + sep, b), (a, sep + b)]              # ... at the edge of a component
+        elif r < 0.50:
+            out = [(a + b, c), (a, b + c)]                      # plain concatenation
+        elif r < 0.57:
+            out = [(a, b), (b, a)]                              # the two components swapped
+        elif r < 0.85:
+            # one family of look-alike words as names, as types, or as both
+            words, _fam = confusable_words(rng)
+            q = rng.random()
+            if q < 0.5:
+                typ = rng.choice(K_TYPES_OK + [b])
+                out = [(wd, typ) for wd in words]
+            elif q < 0.85:
+                out = [(a, wd) for wd in words]
+            else:
+                out = list(zip(words, reversed(words))) + [(words[0], words[0])]
+        elif r < 0.95:
+            # the same name; types that are no type at all or only look like none
+            types = [None, "None", "", " ", "none", "n.s.", "N.S."]
+            rng.shuffle(types)
+            out = [(a, typ) for typ in types[:rng.choice([2, 3])]]
+        else:
+            # a name that is a number next to the same number as text (a YAML / JSON file can hold
+            # both; outside the model: oracle only).  1 / 1.0 / True are equal in Python and not used.
+            n = rng.choice([1, 2, 10, 7])
+            typ = rng.choice(K_TYPES_OK)
+            out = [({"i": n}, typ), (str(n), typ)] + ([(str(n) + " ", typ)] if rng.random() < 0.3 else [])
+        out = distinct(out)[:4]
+        if len(out) >= 2:
+            return out
+    return [("a/b", "c"), ("a", "b/c")]
+
+
+def near_id_source(rng):
+    """ids that differ from each other in one single character (the last, the first, one in the
+    middle), now and then one of them twice (a real duplicate)"""
+    base = "aaaaaaaa-bbbb-4ccc-8ddd-eeeeeeeeeeee"
+    cands = []
+    for pos in (35, 0, 9, 19, 24, 34):
+        for ch in "0123456789abcdef":
+            cand = base[:pos] + ch + base[pos + 1:]
+            if cand not in cands:
+                cands.append(cand)
+    rng.shuffle(cands)
+    made = []
+
+    def nxt():
+        if made and rng.random() < 0.08:
+            return rng.choice(made)
+        tok = "raw:" + cands[len(made)] if len(made) < len(cands) else "k%d" % len(made)
+        made.append(tok)
+        return tok
+    return nxt
+
+
+def gen_keys_case(rng, strs):
+    ids = near_id_source(rng) if rng.random() < 0.15 else id_source(rng, 0.0)
+    dup_rate = rng.choice([0.0, 0.0, 0.3, 0.5])         # real duplicates among the look-alikes
+    names, types, words_seen = ["a/b", "a"], ["c", "b/c"], ["a", "A"]
+
+    def leaf(name, typ):
+        return {"id": ids(), "name": name, "type": typ, "sc": None, "pc": None, "props": [], "subs": []}
+
+    def sec_family():
+        pairs = confusable_pairs(rng)
+        names.extend(n for n, _t in pairs)
+        types.extend(t for _n, t in pairs)
+        secs = [leaf(n, t) for n, t in pairs]
+        if rng.random() < dup_rate:
+            n, t = rng.choice(pairs)
+            secs.insert(rng.randrange(len(secs) + 1), leaf(n, t))
+        if rng.random() < 0.12:                       # ... the look-alikes beyond the tenth child
+            for k in range(rng.choice([9, 10, 11])):
+                secs.insert(rng.randrange(min(2, len(secs)) + 1), leaf("f%d" % k, rng.choice(K_TYPES_OK)))
+        else:
+            for k in range(rng.choice([0, 0, 1, 2])):
+                secs.insert(rng.randrange(len(secs) + 1), leaf("f%d" % k, rng.choice(K_TYPES_OK)))
+        return secs
+
+    def prop_family():
+        words, fam = confusable_words(rng)
+        words_seen.extend(fam)
+        props = []
+        for wd in words:
+            props.append({"id": ids(), "name": wd, "dtype": "string",
+                          "values": [{"s": rng.choice(K_VALUES)} for _ in range(rng.choice([0, 1, 1, 2]))],
+                          "card": None})
+        if rng.random() < dup_rate:
+            props.insert(rng.randrange(len(props) + 1),
+                         {"id": ids(), "name": rng.choice(words), "dtype": "string", "values": [], "card": None})
+        for q in props:
+            if rng.random() < 0.45:
+                # a dependency spelt like a sibling, like a look-alike of a sibling, or the sibling itself
+                q["dep"] = rng.choice(fam + words)
+                if rng.random() < 0.6:
+                    q["dv"] = rng.choice(K_VALUES)
+        if rng.random() < 0.3:
+            props.append({"id": ids(), "name": "q", "dtype": "int", "values": [{"i": 1}], "card": None,
+                          "dep": rng.choice(fam), "dv": rng.choice(K_VALUES + [None, None])})
+            if props[-1]["dv"] is None:
+                del props[-1]["dv"]
+        return props
+
+    host = leaf("host", "t")
+    host["subs"] = sec_family() if rng.random() < 0.6 else [leaf("c0", "t"), leaf("c1", "t")]
+    if rng.random() < 0.55:
+        host["props"] = prop_family()
+    if rng.random() < 0.25:
+        rng.choice(host["subs"])["subs"] = sec_family()
+    if rng.random() < 0.3:
+        rng.choice(host["subs"])["props"] = prop_family()
+    tops = sec_family() if rng.random() < 0.5 else [leaf("other", "u")]
+    host_at = rng.randrange(len(tops) + 1)
+    tops.insert(host_at, host)
+    if rng.random() < 0.3:
+        # the same pair once more under another parent: cousins / aunts are never duplicates
+        m = rng.choice(host["subs"])
+        dest = rng.choice([tops] + [t["subs"] for t in tops if t is not host])
+        dest.append(leaf(m["name"], m["type"]))
+    everything = []
+
+    def walk(sec):
+        everything.append(sec)
+        everything.extend(sec["props"])
+        for sub in sec["subs"]:
+            walk(sub)
+    for top in tops:
+        walk(top)
+    if rng.random() < 0.12:
+        # a name that only looks like the id of its object
+        rng.choice(everything)["name"] = rng.choice(["=ID", "=id ", "=id8", "=id~", "=id"])
+
+    text_names = [n for n in names if isinstance(n, str)]
+    ops = []
+    for _ in range(rng.choice([0, 0, 0, 1, 1, 2, 3])):
+        at = rng.choice([[host_at], [host_at, rng.randrange(4)], rand_path(rng, 1, 2)])
+        r = rng.random()
+        if r < 0.18:
+            ops.append({"op": "set", "at": at, "attr": "name", "value": rng.choice(names)})
+        elif r < 0.30:
+            ops.append({"op": "set", "at": at, "attr": "type", "value": rng.choice(types)})
+        elif r < 0.45:
+            # a copy next to the original, renamed into a look-alike (or not renamed: a real duplicate)
+            op = {"op": "clone", "at": at, "to": at[:-1], "keep_id": rng.random() < 0.3, "children": rng.random() < 0.7,
+                  "how": rng.choice(["append", "insert", "extend"]), "pos": rng.choice([0, 1, -1])}
+            if rng.random() < 0.8:
+                op["rename"] = rng.choice(text_names)
+            ops.append(op)
+        elif r < 0.57:
+            n, t = rng.choice(confusable_pairs(rng) + [(rng.choice(names), rng.choice(types))])
+            ops.append({"op": "add_sec", "at": at[:-1] if rng.random() < 0.5 else at, "sec": leaf(n, t)})
+        elif r < 0.67:
+            ops.append({"op": "pset", "at": at, "i": rng.randrange(4), "attr": rng.choice(["name", "dep", "dv"]),
+                        "value": rng.choice(words_seen + K_VALUES[:4])})
+        elif r < 0.75:
+            ops.append({"op": "add_prop", "at": at,
+                        "prop": {"id": ids(), "name": rng.choice(words_seen), "dtype": "string", "values": [{"s": "a"}],
+                                 "card": None, "dep": rng.choice(words_seen)}})
+        elif r < 0.83:
+            ops.append({"op": "validate", "how": rng.choice(["new", "method", "deferred"]), "judge": rng.random() < 0.6})
+        elif r < 0.93:
+            ops.append({"op": "roundtrip", "fmt": rng.choice(["XML", "JSON", "YAML"]),
+                        "entry": rng.choice(["string", "file"])})
+        else:
+            ops.append(gen_feature_op(rng, ids))
+    r = rng.random()
+    if r < 0.12:
+        # the Section with the look-alike children validated on its own, never part of a Document
+        return {"stream": "keys", "kind": "sec", "node": host,
+                "ops": [op for op in ops if op["op"] in ("set", "add_sec", "pset", "add_prop", "validate")
+                        and op.get("at", [0])[:1] != [host_at]][:1]}
+    case = {"stream": "keys", "kind": "doc", "node": {"id": ids(), "secs": tops}, "ops": ops}
+    if r < 0.24:
+        case["view"] = {"sec": [host_at] + ([rng.randrange(4)] if rng.random() < 0.3 else [])}
+    elif r < 0.32:
+        case["view"] = {"sec": [host_at] + ([rng.randrange(4)] if rng.random() < 0.3 else []), "prop": rng.randrange(4)}
+    if rng.random() < 0.25:
+        case["pre"] = True
+    if "view" not in case and rng.random() < 0.5:
+        # a document whose keys only look alike has no error: it has to be written
+        case["save"] = {"fmt": rng.choice(SAVE_FORMATS), "entry": rng.choice(["writer", "odml.save"])}
+    return case
+
+
 # ----------------------------------------------------------------------------- the check
 class C08(fw.Check):
     prop = "C08"
@@ -1886,6 +2160,13 @@ class C08(fw.Check):
             "file; value lists beyond ten values, tuple lengths of two and three digits, stored values of "
             "foreign Python types and non-text dependency / dependency_value (oracle only); the fit of a value "
             "is decided by the documented formats, independently of odml.dtypes, wherever they leave no doubt. "
+            "Keys that differ but look alike (stream keys): sibling Sections whose (name, type) pairs coincide "
+            "once joined with a separator ('/', ',', ':', blank, NUL, ...), concatenated, swapped, compared without "
+            "case / blanks / accents / compatibility forms, cut after 8..256 characters, read as numbers or turned "
+            "into text (type None vs 'None', name 1 vs '1'); sibling Properties, dependencies, dependency values and "
+            "ids (one character apart) of the same kinds; names that only look like the own id; mixed with real "
+            "duplicates, below the Document, a Section, a stand-alone Section, beyond the 10th child, made by renames / "
+            "clones / readers in a history, validated through every entry point and saved in every format. "
             "Non-trivial = at least one issue reported; distinct = distinct canonical JSON of the case.")
 
     # -- generation ----------------------------------------------------------
@@ -1998,6 +2279,9 @@ class C08(fw.Check):
                             node = {"id": "p", "name": "p", "dtype": dtype, "values": [val], "card": None}
                             node.update(how)
                             cases.append({"stream": "tgrid", "kind": "prop", "node": node})
+        # ---- stream added after the fifth seeded round (appended, the ones above are unchanged)
+        for _ in range(2500 if quick else 40000):
+            cases.append(gen_keys_case(rng, STRS))
         return cases
 
     @staticmethod
@@ -2304,8 +2588,8 @@ class C08(fw.Check):
             what = "+".join(k for k in ("link", "include", "merged") if feat.get(k)) or "plain"
             view = obs.get("kind")
             return ("ops:%s:%s:%s" % (what, view, "issues" if any_issue else "clean"), any_issue)
-        if st == "vals":
-            return ("vals:%s:%s" % (obs.get("kind"), "issues" if any_issue else "clean"), any_issue)
+        if st in ("vals", "keys"):
+            return ("%s:%s:%s" % (st, obs.get("kind"), "issues" if any_issue else "clean"), any_issue)
         if st in ("doc", "sub", "sec", "shape", "save2"):
             return ("%s:%s" % (st, "issues" if any_issue else "clean"), any_issue)
         return ("%s:%s" % (st, ",".join(str(c) for c in codes) or "clean"), any_issue)
